@@ -1,7 +1,7 @@
 """C03 - a refused or hook-vetoed structural change leaves the whole forest untouched."""
 from anytree import LoopError, TreeError
 
-from .. import mut
+from .. import big, mut, nodes
 from ..core import Violation
 
 PROP_ID = "C03"
@@ -67,7 +67,45 @@ def classify(step):
     return ids
 
 
+def check_deep(case, acc):
+    """Refusals at the bottom of a chain deeper than the interpreter's recursion limit leave everything as it was."""
+    make = nodes.factory(case["cls"])
+    depth = big.deep_size()
+    chain = big.build_chain(make, depth, "parent")
+    root, deep = chain[0], chain[-1]
+    k1, k2, lone = make(depth), make(depth + 1), make(depth + 2)
+    k1.parent = deep
+    k2.parent = deep
+    ctx = "%s chain of %d nodes" % (case["cls"], depth)
+
+    def untouched(what):
+        big.expect_links(deep, chain[-2], [k1, k2], "%s: after the refused %s the bottom node" % (ctx, what))
+        big.expect_links(k1, deep, [], "%s: after the refused %s its first child" % (ctx, what))
+        big.expect_links(k2, deep, [], "%s: after the refused %s its second child" % (ctx, what))
+        big.expect_links(root, None, [chain[1]], "%s: after the refused %s the root" % (ctx, what))
+        big.expect_links(lone, None, [], "%s: after the refused %s the bystander" % (ctx, what))
+
+    for what, call, want in (
+        ("deep.children = [k2, root]", lambda: setattr(deep, "children", [k2, root]), "LoopError"),
+        ("deep.children = [k1, deep]", lambda: setattr(deep, "children", [k1, deep]), "LoopError"),
+        ("deep.children = [k2, k2]", lambda: setattr(deep, "children", [k2, k2]), "TreeError"),
+        ("root.parent = k1", lambda: setattr(root, "parent", k1), "LoopError"),
+        ("deep.parent = deep", lambda: setattr(deep, "parent", deep), "LoopError"),
+    ):
+        out = big.outcome_of(call)
+        if out != want:
+            raise Violation("not-untouched", "%s: %s must be refused with %s, got %s" % (ctx, what, want, out))
+        try:
+            untouched(what)
+        except Violation as exc:
+            raise Violation("not-untouched", exc.detail)
+    acc.nontrivial(True)
+    acc.tag("deep_chain_cases")
+
+
 def check_case(case, acc):
+    if case.get("kind") == "deep":
+        return check_deep(case, acc)
     family = mut.family_of(case["cls"])
     stats = {"inscope": 0, "after_hook": 0, "steal": 0, "deviations": 0}
 
@@ -103,6 +141,8 @@ def plan(tier, seed):
         for spec in ("HNM", "HLM"):
             for i in range(shards):
                 tasks.append({"engine": "enum", "n": n, "spec": spec, "index": i, "count": shards, "pairs": n <= 3, "maxlen": None if n <= 3 else 3})
+    for cls in ("Node", "PlainNM", "SlotLM"):
+        tasks.append({"engine": "deep", "cls": cls})
     examples = 100 if tier == "quick" else 500
     for i in range(nshards):
         tasks.append({"engine": "hyp", "examples": examples, "seed": seed * 1000 + i})
@@ -118,6 +158,12 @@ def _no_bad_for_lm(cases, family):
 
 
 def run_task(task, acc):
+    if task["engine"] == "deep":
+        case = {"kind": "deep", "cls": task["cls"]}
+        exc = acc.evaluate(check_case, case, enumerated=False)
+        if exc is not None:
+            acc.add_violation(case, exc)
+        return
     if task["engine"] == "enum":
         cases = mut.enum_fault_cases(task["spec"], task["n"], task["index"], task["count"], fault_hooks=mut.PRE_HOOKS, pairs=task["pairs"], invalid=True, maxlen=task["maxlen"])
         acc.run_enum(check_case, _no_bad_for_lm(cases, mut.family_of(task["spec"])))
